@@ -416,10 +416,45 @@ def edit_sweep(ctx: Ctx) -> None:
             ctx.case({"edit-sweep": w["name"], "edit": i}, labels=["edit-sweep"], nontrivial=True)
 
 
+def mixed_sweep(ctx: Ctx) -> None:
+    """A repository that holds its own recording of a call AND another recording of the same call
+    (same task hash and arguments, other code beneath) pulled from a second repository; then the
+    code beneath is edited again, and reverted."""
+    for w in FIXED:
+        n = len(w["init"])
+        for i in range(2, n - 1):
+            case = {"mixed": True, "family": w["name"], "task": i}
+            fam = codefam.Family(n)
+            fam.install_all(w["init"])
+            if i not in fam.uses():
+                continue
+            mine, theirs = dbx.fresh_backend(), dbx.fresh_backend()
+            try:
+                orig = fam.variants[i]
+                check_run(case, fam, w["arg"], mine, [], "own recording", "mixed")
+                fam.install(i, alt_variant(orig, 5))
+                check_run(case, fam, w["arg"], theirs, [], "other repository's recording", "mixed")
+                transfer.sync(theirs, mine)
+                fam.install(i, alt_variant(orig, 9))
+                check_run(case, fam, w["arg"], mine, [], f"after pulling another recording of the call: task t{i} edited", "own+imported")
+                fam.install(i, orig)
+                check_run(case, fam, w["arg"], mine, [], f"after pulling another recording of the call: task t{i} reverted", "own+imported")
+            except Violation as v:
+                ctx.case(case, labels=["mixed-sweep", "violating"], nontrivial=True)
+                if not ctx.absorb(v):
+                    raise
+                continue
+            finally:
+                dbx.discard_backend(mine)
+                dbx.discard_backend(theirs)
+            ctx.case(case, labels=["mixed-sweep"], nontrivial=True)
+
+
 def check(ctx: Ctx) -> None:
     C.quiet_logs()
     if ctx.shard in (None, 0):
         edit_sweep(ctx)
+        mixed_sweep(ctx)
     fams = list(FIXED[:1]) if not ctx.thorough else shard_range(ctx, list(FIXED))
     for w in fams:
         enumerate_family(ctx, w)
@@ -430,6 +465,9 @@ def check(ctx: Ctx) -> None:
 
 def replay(ctx: Ctx, case) -> None:
     C.quiet_logs()
+    if case.get("mixed"):
+        mixed_sweep(ctx)
+        return
     if case.get("history"):
         run_history(ctx, case)
     else:
